@@ -53,16 +53,17 @@ def tokenize(code: str) -> list[str]:
     return lines
 
 
-def normalize_line(line: str) -> str:
+def normalize_line(line: str, comment_markers: tuple[str, ...] = ("#", "//")) -> str:
     """Normalize a line by removing comments and excess whitespace.
 
     Args:
         line: Raw source code line
+        comment_markers: Line-comment markers of the file's language (both styles by default)
 
     Returns:
         Normalized line (empty string if line has no content)
     """
-    line = _strip_comments(line)
+    line = _strip_comments(line, comment_markers)
     return " ".join(line.split())
 
 
@@ -113,22 +114,20 @@ def _handle_multiline_import_continuation(line: str) -> tuple[bool, bool]:
     return not closes_import, True
 
 
-def _strip_comments(line: str) -> str:
+def _strip_comments(line: str, comment_markers: tuple[str, ...] = ("#", "//")) -> str:
     """Remove comments from line (Python # and // style).
 
     Args:
         line: Source code line
+        comment_markers: Markers that start a comment in this file's language
 
     Returns:
         Line with comments removed
     """
-    # Python comments
-    if "#" in line:
-        line = line[: line.index("#")]
-
-    # JavaScript/TypeScript comments
-    if "//" in line:
-        line = line[: line.index("//")]
+    # "//" is floor division in Python and "#" a private-name prefix in JavaScript: cut only at the language's own marker
+    for marker in comment_markers:
+        if marker in line:
+            line = line[: line.index(marker)]
 
     return line
 
